@@ -89,3 +89,36 @@ GROUPS.append(Group('R4', 'to_str (all 8 flag combinations): a conforming termin
                     bounds='change points N<=3, setting objects<=2/3; setting texts: a symbolic code 0..110 (known, unknown, clear, '
                     'reset), 38/48/58;5;n or 38/48/58;2;r;g;b with symbolic arguments; text length, keys, flags, prior terminal '
                     'state symbolic; base text without ESC', assumes=['K1']))
+
+
+# ============================================================================================= T1: tables
+def t1_items(tier):
+    return [['codes', 0], ['codes', 64], ['codes', 128], ['codes', 192], ['clear'], ['fns']]
+
+
+def t1_task(envr, item):
+    from pyvc.interp import ClassRef
+    I = envr.interp
+
+    def body(c):
+        c.in_spec += 1
+        if item[0] == 'codes':
+            for code in range(item[1], item[1] + 64):
+                r = I.call_name('table_row_ok', ClassRef('AnsiParam'), code)
+                c.prove('code-%d-known-with-spec-group-and-function' % code, I.truth(r))
+        elif item[0] == 'clear':
+            native = envr.program.modules['ansi_param'].native
+            d = I.lift(native.EFFECT_CLEAR_DICT)
+            r = I.call_name('clear_dict_ok', d, ClassRef('AnsiParamEffect'))
+            c.prove('effect-clear-codes', I.truth(r))
+        else:
+            fns = sym.PList(list(I.iterate(ClassRef('_AnsiControlFn'))))
+            r = I.call_name('control_fns_ok', fns)
+            c.prove('six-extended-colour-functions', I.truth(r))
+        c.in_spec -= 1
+    return ContractRun(body, [], replayable=False)
+
+
+GROUPS.append(Group('T1', 'AnsiParam / EFFECT_CLEAR_DICT / _AnsiControlFn agree with the independent SGR table on all 256 codes',
+                    ['C01', 'C02', 'C18', 'C07'], 'U', ['AnsiParam.__init__', '_AnsiControlFn.__init__'], t1_items, t1_task,
+                    bounds='none (finite: all 256 codes, 15 groups, 6 functions, exhaustive)'))
